@@ -104,6 +104,11 @@ working directory the caller had, so `output.joinpath(*name)` denotes a file bel
 named (and not below `<output>/<output>` or `<output's parent>/<output>`). -/
 theorem output_paths_resolved_in_callers_cwd : onlyParseInsideChdir pre loopBody post = true := by decide
 
+/-- … and that one region is entered as `chdir(output)`, `parse()` is handed no settings path and `chdir` switches to
+`path if path.is_dir() else path.parent`: the stage that looks at the working directory (the formatters' configuration discovery)
+runs in the output directory and nowhere else (the same reviewed shape carries C08's independence from the caller's directory). -/
+theorem parse_runs_inside_chdir_output : parseInsideChdirOutput pre chdirSome parseCallArguments = true := by decide
+
 /-- Success or failure: a path that is not at or below the requested output has the same content
 (or absence) afterwards. Module paths are `out ++ name` (assumption: the components of `name`
 are plain names — C12 — so `joinpath` stays below `output`). -/
